@@ -1,9 +1,10 @@
 CONSTANTS p = 7
  usq = 6
  ASet = "some"
+ BSet = "half"
  AssocAll = FALSE
- AssocStep = 8
- MaxK = 16
+ AssocStep = 10
+ MaxK = 10
 SPECIFICATION Spec
 INVARIANT Check
 CHECK_DEADLOCK FALSE
